@@ -30,7 +30,8 @@ JudgeCall(r) ==
         IF r.exc = "ValueError" THEN Verdict(r.id, "ACCEPT", "missing-refused", TRUE, "")
         ELSE Verdict(r.id, "REJECT", "MissingNotRefused", TRUE, r.exc)
     ELSE IF r.exc # "" THEN Verdict(r.id, "REJECT", "Raised", TRUE, r.exc)
-    ELSE LET calls == CallsOf(r.out, r.mname)
+    ELSE LET calls == {cl2 \in CallsOf(r.out, r.mname) : ~(CallArgs(cl2) = <<IntC(99)>> /\ cl2.p = <<>>)}
+                      \* (a same-named method of another class, normalised to its own default 99, is not the site)
              want == Normalized(r.sig, r.shape)
              nontriv == r.shape.kws # <<>> \/ r.shape.npos < r.sig.n
          IN IF Cardinality(calls) # 1 THEN Verdict(r.id, "REJECT", "CallSiteCount", nontriv, "")
@@ -62,7 +63,42 @@ SpecTypes(r) == LET RECURSIVE Go(_, _)
                                          <<[res |-> w[1], ty |-> w[2]]>> \o Go(i + 1, w[2])
                 IN Go(1, Ty0("Evt"))
 
+(* C09 record: [id, kind = "callbacks", cs (the case), fired: Seq([kind, site]),                      *)
+(*   upstream: Seq over sites of Seq([kind, site]) = MetaData found on the source chain of the stream   *)
+(*   operator whose lambda contains that site, calls: Seq over sites of the emitted call term (or absent)]*)
+IndexIn(sq, x) == IF \E i \in 1..Len(sq) : sq[i] = x
+                  THEN CHOOSE i \in 1..Len(sq) : sq[i] = x /\ \A j \in 1..(i - 1) : sq[j] # x ELSE 0
+CountIn(sq, x) == Cardinality({i \in 1..Len(sq) : sq[i] = x})
+JudgeCallbacks(r) ==
+    LET cs == r.cs
+        planned == PlannedPairs(cs)
+        fired == [i \in 1..Len(r.fired) |-> <<r.fired[i].kind, r.fired[i].site>>]
+        sites == Sites(cs)
+        kinds == CbKinds(cs.pl)
+        want == EmittedName(cs)
+    IN IF r.exc # "" THEN Verdict(r.id, "REJECT", "Raised", TRUE, r.exc)
+       ELSE IF \E i \in 1..Len(fired) : fired[i] \notin planned THEN
+            Verdict(r.id, "REJECT", "FiredForAbsentSite", TRUE, "")
+       ELSE IF \E pp \in planned : CountIn(fired, pp) = 0 THEN Verdict(r.id, "REJECT", "NotFired", TRUE, "")
+       ELSE IF \E pp \in planned : CountIn(fired, pp) > 1 THEN Verdict(r.id, "REJECT", "FiredTwice", TRUE, "")
+       ELSE IF cs.pl = "both" /\ \E i \in 1..Len(sites) :
+                  IndexIn(fired, <<"class", sites[i]>>) > IndexIn(fired, <<"method", sites[i]>>) THEN
+            Verdict(r.id, "REJECT", "ClassAfterMethod", TRUE, "")
+       ELSE IF \E i \in 1..Len(sites) : \E j \in 1..Len(kinds) :
+                  ~\E u \in 1..Len(r.upstream[i]) :
+                      r.upstream[i][u].kind = kinds[j] /\ r.upstream[i][u].site = sites[i] THEN
+            Verdict(r.id, "REJECT", "MetaDataNotUpstream", TRUE, "")
+       ELSE IF \E i \in 1..Len(sites) :
+                  \/ r.calls[i].k # "call"
+                  \/ ~(IsMethOf(r.calls[i], want) \/ IsCallOf(r.calls[i], want))
+                  \/ r.calls[i].n < 1 \/ r.calls[i].a[2] # IntC(sites[i]) THEN
+            Verdict(r.id, "REJECT", "EmittedCall", TRUE, "")
+       ELSE IF cs.pl = "param" /\ r.params # [i \in 1..Len(sites) |-> 7] THEN
+            Verdict(r.id, "REJECT", "ParamsByValue", TRUE, "")
+       ELSE Verdict(r.id, "ACCEPT", "", TRUE, "")
+
 Judge(r) == CASE r.kind = "untyped" -> JudgeUntyped(r)
+              [] r.kind = "callbacks" -> JudgeCallbacks(r)
               [] r.kind = "types" -> JudgeTypes(r)
               [] r.kind = "call" -> JudgeCall(r)
               [] OTHER -> Verdict(r.id, "UNMODELLED", "kind", FALSE, r.kind)
